@@ -268,12 +268,13 @@ pub fn generate(prop: &str, thorough: bool, rng: &mut Rng) -> Case {
             let n = rng.below(20) * scale;
             let classes = vec![0, 1, 1, 2, 4];
             let mut ops = gen_ops(rng, n, keys, &mix, &classes, &loc);
+            let allow_hold = rng.chance(1, 3);
             for op in ops.iter_mut() {
                 if let Op::Insert { hold, .. } = op {
                     *hold = false;
                 }
                 if let Op::Get { hold, .. } = op {
-                    *hold = false;
+                    *hold = *hold && allow_hold;
                 }
             }
             ops.push(Op::Close);
@@ -288,6 +289,70 @@ pub fn generate(prop: &str, thorough: bool, rng: &mut Rng) -> Case {
                 });
             }
             ops.push(Op::Reopen);
+            clients.push(ops);
+        }
+        "C10" => {
+            let keys = 16 + rng.below(32) as u64;
+            cfg.insert("keys".into(), keys as i64);
+            cfg.insert("tomb".into(), 1);
+            cfg.insert("policy".into(), 1);
+            cfg.insert("comp".into(), 0);
+            cfg.insert("block_pages".into(), 8);
+            // 2 .. 4 pages of tombstone log
+            cfg.insert("blocks".into(), *rng.pick(&[34, 48, 64, 64, 96]));
+            cfg.insert("mem_cap".into(), 4);
+            cfg.insert("mem_shards".into(), 1);
+            cfg.insert("inmem_mod".into(), 0);
+            cfg.insert("ondisk_mod".into(), 0);
+            cfg.insert("max_steps".into(), 20_000_000);
+            if rng.chance(1, 2) {
+                cfg.insert("flushers".into(), 1);
+            }
+            fit_buffers(&mut cfg, rng, false);
+            let capacity_slots = {
+                let pages = cfg["blocks"] * 8;
+                ((pages + 4) as usize).div_ceil(256) * 256
+            };
+            let mut ops = vec![];
+            for k in 0..keys {
+                ops.push(Op::Insert { k, ver: 0, w: (k % 2) as u32, loc: 0, hold: false });
+            }
+            ops.push(Op::Wait);
+            let mut filler = 1000u64;
+            let mut tombstones = 0usize;
+            let cycles = 1 + rng.below(if thorough { 4 } else { 3 });
+            for _ in 0..cycles {
+                let budget = capacity_slots.saturating_sub(tombstones + 40);
+                let n1 = [0usize, 3, 120, 250, 260, 300][rng.below(6)].min(budget / 2);
+                for _ in 0..n1 {
+                    ops.push(Op::Delete { k: filler });
+                    filler += 1;
+                }
+                let real = 1 + rng.below(keys as usize / 2);
+                for _ in 0..real {
+                    let k = rng.below(keys as usize) as u64;
+                    ops.push(if rng.chance(1, 2) { Op::Remove { k } } else { Op::Delete { k } });
+                    if rng.chance(1, 5) {
+                        ops.push(Op::Insert { k, ver: 0, w: 1, loc: 0, hold: false });
+                    }
+                    if rng.chance(1, 8) {
+                        ops.push(Op::Get { k, hold: false });
+                    }
+                }
+                let n2 = [0usize, 5, 100, 257][rng.below(4)].min(budget.saturating_sub(n1 + real) / 2);
+                for _ in 0..n2 {
+                    ops.push(Op::Delete { k: filler });
+                    filler += 1;
+                }
+                tombstones += n1 + n2 + real;
+                ops.push(Op::Wait);
+                ops.push(if rng.chance(2, 3) { Op::Reopen } else { Op::Ctl { what: 30, arg: 0 } });
+                if rng.chance(1, 3) {
+                    for _ in 0..rng.below(6) {
+                        ops.push(Op::Get { k: rng.below(keys as usize) as u64, hold: false });
+                    }
+                }
+            }
             clients.push(ops);
         }
         _ => panic!("hybgen: unknown property {prop}"),
